@@ -225,13 +225,15 @@ class Check:
 
     # -- finish ---------------------------------------------------------------------------
     def finish(self) -> int:
-        os.makedirs(os.path.join(VERIF, "evidence"), exist_ok=True)
+        ev_dir = os.environ.get("VERIF_EVIDENCE_DIR") or os.path.join(VERIF, "evidence")
+        rp_dir = os.environ.get("VERIF_REPLAY_DIR") or os.path.join(VERIF, "replays")
+        os.makedirs(ev_dir, exist_ok=True)
         replay_paths = []
         if self.violations:
-            os.makedirs(os.path.join(VERIF, "replays"), exist_ok=True)
+            os.makedirs(rp_dir, exist_ok=True)
             for v in self.violations[:5]:
                 path = os.path.join(
-                    VERIF, "replays", f"{self.prop}-{digest(v['witness'])}.json")
+                    rp_dir, f"{self.prop}-{digest(v['witness'])}.json")
                 with open(path, "w") as fh:
                     json.dump({"property": self.prop, "symptom": v["symptom"],
                                "tags": v["tags"], "tier": self.tier, "seed": self.seed,
@@ -260,7 +262,7 @@ class Check:
             "wall_s": round(time.time() - self.t0, 2),
             "violations": len(self.violations),
         }
-        with open(os.path.join(VERIF, "evidence", f"{self.prop}.json"), "w") as fh:
+        with open(os.path.join(ev_dir, f"{self.prop}.json"), "w") as fh:
             json.dump(ev, fh, indent=1, default=str)
         for k, v in sorted(self.known.items()):
             print(f"KNOWN-FINDING: property={self.prop} {v['entry']['id']}: "
